@@ -2,10 +2,124 @@ package main
 
 import (
 	"go/token"
+	"regexp"
 	"strings"
 
 	"golang.org/x/tools/go/ssa"
 )
+
+// positionByCounting: Position written without sorting: the rank of the own name is the number of
+// members whose name orders before it.  One loop over all members, never left early; a counter that
+// starts at 0 and is incremented exactly for the members ordered before the own name; the result is
+// that counter (or the number of members when the own name is not among them, or 0 for no members:
+// what the scan over the sorted list yields in those cases).
+func positionByCounting(o *Ob, pos *ssa.Function) bool {
+	e := o.E
+	ms := e.Calls(pos, "(*github.com/hashicorp/memberlist.Memberlist).Members")
+	if len(ms) != 1 {
+		return false
+	}
+	mx := e.X(pos, ms[0].(*ssa.Call))
+	var loop *Loop
+	var cnt *ssa.Phi
+	var inc *ssa.BinOp
+	for _, l := range e.Loops(pos) {
+		if !e.CoversAll(l, mx) {
+			continue
+		}
+		for _, in := range l.Header.Instrs {
+			phi, ok := in.(*ssa.Phi)
+			if !ok {
+				break
+			}
+			for _, ed := range phi.Edges {
+				if b, ok := ed.(*ssa.BinOp); ok && b.Op == token.ADD && b.X == ssa.Value(phi) && e.X(pos, b.Y) == "1" && l.Blocks[b.Block().Index] && !drivesLoop(l, phi, b) {
+					loop, cnt, inc = l, phi, b
+				}
+			}
+		}
+	}
+	if loop == nil {
+		return false
+	}
+	o.Site(inc, "members ordered before the own name are counted")
+	for i, ed := range cnt.Edges {
+		if !loop.Blocks[loop.Header.Preds[i].Index] {
+			o.Check(e.X(pos, ed) == "0", "pos-count-start", "the count of members ordered before the own name must start at 0", inc)
+		} else {
+			o.Check(ed == ssa.Value(inc) || ed == ssa.Value(cnt), "pos-count-step", "the count may only grow by one per member", inc)
+		}
+	}
+	less := LRe(`^\(`+regexp.QuoteMeta(mx)+`\[i\]\.Name < \(\*am/cluster\.Peer\)\.Self\(recv\)\.Name\)$|^\(\(\*am/cluster\.Peer\)\.Self\(recv\)\.Name > `+regexp.QuoteMeta(mx)+`\[i\]\.Name\)$`, true)
+	o.Check(e.CountLitEdges(pos, less)+e.CountLitEdges(pos, less.Neg()) > 0, "pos-less", "members must be ranked by name", inc)
+	o.Guarded(inc, "pos-count-guard", "counting a member as ordered before this instance", less)
+	o.Check(!loopBackWithout(o, loop, IsInstr(inc), e.CutContradicting(less)), "pos-count-forced", "a member ordered before this instance can go uncounted", inc)
+	o.Check(len(e.EarlyExits(loop)) == 0, "pos-stop", "the count can stop before every member was compared", inc)
+	// what is returned
+	empty := L("(len("+mx+") == 0)", true)
+	for _, in := range AllInstrs(pos) {
+		ret, ok := in.(*ssa.Return)
+		if !ok {
+			continue
+		}
+		o.Site(ret, "position = "+clip(e.X(pos, ret.Results[0])))
+		var leaves func(v ssa.Value, seen map[ssa.Value]bool)
+		leaves = func(v ssa.Value, seen map[ssa.Value]bool) {
+			if seen[v] {
+				return
+			}
+			seen[v] = true
+			if v == ssa.Value(cnt) || v == ssa.Value(inc) {
+				return
+			}
+			if phi, ok := v.(*ssa.Phi); ok {
+				for _, ed := range phi.Edges {
+					leaves(ed, seen)
+				}
+				return
+			}
+			switch x := e.X(pos, v); {
+			case x == "len("+mx+")":
+			case x == "0":
+				o.Check(e.OnlyUnder(ret, empty), "pos-zero", "position 0 is answered without counting although there are members", ret)
+			default:
+				o.Fail("pos-result", "Position answers "+clip(x)+", not the number of members ordered before this instance", ret)
+			}
+		}
+		leaves(ret.Results[0], map[ssa.Value]bool{})
+	}
+	return true
+}
+
+// drivesLoop: the loop's own exit test reads the variable (it is the index, not a tally).
+func drivesLoop(l *Loop, phi *ssa.Phi, step *ssa.BinOp) bool {
+	for _, b := range l.Fn.Blocks {
+		if !l.Blocks[b.Index] || len(b.Instrs) == 0 {
+			continue
+		}
+		iff, ok := b.Instrs[len(b.Instrs)-1].(*ssa.If)
+		if !ok {
+			continue
+		}
+		exits := false
+		for _, s := range b.Succs {
+			if !l.Blocks[s.Index] {
+				exits = true
+			}
+		}
+		if !exits {
+			continue
+		}
+		if c, ok := iff.Cond.(*ssa.BinOp); ok {
+			for _, side := range []ssa.Value{c.X, c.Y} {
+				if side == ssa.Value(phi) || side == ssa.Value(step) {
+					return true
+				}
+			}
+		}
+	}
+	return false
+}
 
 func init() {
 	propInfos["C08"] = &propInfo{
@@ -120,6 +234,10 @@ func init() {
 			}
 		}
 		pos := o.Fn("(*am/cluster.Peer).Position")
+		if len(e.Calls(pos, "sort.Slice")) == 0 && positionByCounting(o, pos) {
+			o.MinSites(3)
+			return
+		}
 		srt := o.One(e.Calls(pos, "sort.Slice"), "pos-sort", "Position must sort the members (all instances must agree on the ranking)", pos)
 		o.Site(srt, "members sorted")
 		less := o.Fn("(*am/cluster.Peer).Position$1")
